@@ -419,7 +419,7 @@ class Codec(object):
             if len(ps) != 1:
                 raise SchemaError('array type of %s has %d particles' % (decl.name, len(ps)))
             m = ps[0]
-            if m.max is not None and m.max < len(v):
+            if m.max is not None and m.max < len(v) and not self.lenient:
                 raise SchemaError('array member of %s has maxOccurs=%s' % (decl.name, m.max))
             for x in v:
                 mt = t[1]
@@ -615,8 +615,32 @@ class Codec(object):
 
 # ------------------------------------------------------------------ messages
 
+PREFIX_SCHEME = ['plain']     # 'plain' | 'adversarial' (set by the checks that vary it)
+
+
 def _nsmap_for(built, extra=()):
     nss = [built.tns] + [c['ns'] for c in built.program.get('classes', []) if c.get('ns')] + list(extra)
+    if PREFIX_SCHEME[0] == 'adversarial':
+        # a client is free to choose its prefixes: the ones a Spyne interface hands out itself (tns, xs, s0, s1 ...) are
+        # bound to decoy namespaces here and the real namespaces get other prefixes
+        real = []
+        for n in nss:
+            if n not in real:
+                real.append(n)
+        out = {'xsi': XSI, 'xs': 'urn:vf:decoy:xs'}
+        # cross-binding: the prefixes Spyne would use, handed to the namespaces in the opposite order (tns names the last
+        # namespace of the document, s0 the one before ...); left-over Spyne prefixes name decoys
+        names = ['tns', 's0', 's1', 's2', 's3']
+        if len(real) == 1:
+            out['w0'] = real[0]
+            for nm in names:
+                out[nm] = 'urn:vf:decoy:' + nm
+        else:
+            for nm, n in zip(names, reversed(real)):
+                out[nm] = n
+            for nm in names[len(real):]:
+                out[nm] = 'urn:vf:decoy:' + nm
+        return out
     out = {'tns': built.tns, 'xsi': XSI}
     i = 0
     for n in nss:
